@@ -245,3 +245,57 @@ func PanicFrame() string {
 	}
 	return "?"
 }
+
+// ---- allocation attribution (heap profile at rate 1, used by probe children) -------------------------
+
+type AllocProfiler struct {
+	prev map[[32]uintptr]int64
+}
+
+// NewAllocProfiler switches the heap profile to rate 1; call it first thing in the child.
+func NewAllocProfiler() *AllocProfiler {
+	runtime.MemProfileRate = 1
+	return &AllocProfiler{prev: map[[32]uintptr]int64{}}
+}
+
+// TopSince returns the first non-runtime function of the allocation site that allocated the most
+// bytes since the previous call (or since start), among sites whose stack passes through a
+// function whose name contains marker (the probe handler).
+func (a *AllocProfiler) TopSince(marker string) string {
+	for i := 0; i < 4; i++ { // the heap profile lags by up to two completed cycles
+		runtime.GC()
+	}
+	n, _ := runtime.MemProfile(nil, true)
+	recs := make([]runtime.MemProfileRecord, n+200)
+	n, ok := runtime.MemProfile(recs, true)
+	if !ok {
+		return "?"
+	}
+	var best int64
+	bestFrame := "?"
+	for _, r := range recs[:n] {
+		d := r.AllocBytes - a.prev[r.Stack0]
+		a.prev[r.Stack0] = r.AllocBytes
+		if d > best {
+			frames := runtime.CallersFrames(r.Stack())
+			name := ""
+			inside := false
+			for {
+				f, more := frames.Next()
+				if name == "" && f.Function != "" && !strings.HasPrefix(f.Function, "runtime.") {
+					name = f.Function
+				}
+				if strings.Contains(f.Function, marker) {
+					inside = true
+				}
+				if !more {
+					break
+				}
+			}
+			if inside && name != "" {
+				best, bestFrame = d, name
+			}
+		}
+	}
+	return bestFrame
+}
